@@ -378,6 +378,67 @@ func unitC17(e common.Env, p *common.Part) {
 			return "", ""
 		}})
 	}
+	// --- scenario G: an established, used connection is RESET from the peer's side while the sender is idle (peer killed with unread
+	// data / linger 0, or a middle box resetting the flow); then the sender goes on sending to that peer and to a healthy one. The
+	// sending process must survive; the healthy peer gets everything; the reset peer is reached again over a new connection.
+	scens = append(scens, scen{"reset: established connection reset by the peer between two frames", func() (string, string) {
+		env, err := newNetEnv(ids, doms)
+		if err != nil {
+			return "", ""
+		}
+		defer env.stopAll()
+		env.listen(1, true)
+		env.listen(2, true)
+		both := comm.SocketRemoteParties{}
+		for k, v := range env.client(1, "d", honestAuth(env.nodes[3].ident, "d")) {
+			both[k] = v
+		}
+		for k, v := range env.client(2, "d", honestAuth(env.nodes[3].ident, "d")) {
+			both[k] = v
+		}
+		seq := uint32(0)
+		send := func(payload int) {
+			d, t := mkPayload(payload, 3, 0, seq)
+			seq++
+			both.Send(1, t, d, 2, 1)
+		}
+		send(64)
+		if !waitFor(10*time.Second, func() bool { return len(env.nodes[1].received()) >= 1 && len(env.nodes[2].received()) >= 1 }) {
+			return "", "" // could not even establish: nothing to judge
+		}
+		resets := 0
+		for round := 0; round < 3; round++ {
+			resets += env.nodes[2].rec.resetAll()
+			time.Sleep(60 * time.Millisecond) // the reset reaches the sender's socket
+			// an empty payload first (a frame that is header only), then ordinary ones
+			send(0)
+			send(64)
+			time.Sleep(30 * time.Millisecond)
+		}
+		for k := 0; k < 5; k++ {
+			send(64)
+			time.Sleep(250 * time.Millisecond) // the sender re-dials once per second at most
+		}
+		total := int(seq)
+		if !waitFor(20*time.Second, func() bool { return len(env.nodes[1].received()) >= total }) {
+			return "healthy-peer-starved", fmt.Sprintf("the healthy peer received %d of %d messages while connections to another peer were being reset", len(env.nodes[1].received()), total)
+		}
+		if !waitFor(20*time.Second, func() bool { return len(env.nodes[2].received()) >= 2 }) {
+			return "peer-not-reached-again", "after its connection had been reset the peer was never reached again over a new connection"
+		}
+		last := -1
+		for _, m := range env.nodes[2].received() {
+			k := int(binary.BigEndian.Uint32(m.Topic[8:]))
+			if k <= last {
+				return "modified-or-reordered", "messages to the peer whose connection was reset arrived out of sending order"
+			}
+			last = k
+		}
+		p.Note("connection resets", resets)
+		p.Count("messages_checked", int64(total+len(env.nodes[2].received())))
+		p.Count("fault_scenarios", 1)
+		return "", ""
+	}})
 	// --- scenario E: inbound peers that stall (before, during and after the TLS handshake, inside the application handshake,
 	// inside a frame) do not stop other peers from connecting to the same listener and delivering
 	for _, stall := range []string{"silent after TCP connect", "truncated TLS record header", "TLS done, no handshake", "handshake length prefix only", "valid handshake, frame header only"} {
